@@ -121,6 +121,7 @@ func c10(c *core.Check) {
 	c10Provenance(c)
 	c10Direction(c)
 	c10BoxSizingStores(c)
+	c10Rerun(c)
 	r4 := c.Rule("R4", "sibling symmetry in block layout code: two assignments of one block that differ by a side (Top/Bottom, Left/Right) on the left and have the same shape on the right mirror every side name of that axis (a half-mirrored pair is a copy-paste slip between the two sides of a box)", 6)
 	sideSymmetryRule(c, r4, "html/layout", map[string]bool{"blocks.go": true, "percentages.go": true, "min_max.go": true, "absolute.go": true, "float.go": true, "replaced.go": true, "preferred.go": true, "tables.go": true, "flex.go": true, "pages.go": true, "backgrounds.go": true, "columns.go": true, "grid.go": true}, 6)
 	r5 := c.Rule("R5", "box-edge sums: an additive expression over margins, paddings and border widths mentions each kind of edge with the same sides (both sides of an axis for all of them, or one side for all of them): a sum with the padding of both sides and twice the same border is a copy-paste slip", 44)
@@ -276,10 +277,26 @@ func c10MinMax(c *core.Check) {
 			continue
 		}
 		// fields written
-		written := map[string]bool{}
+		written, restored := map[string]bool{}, map[string]bool{}
+		// the first run of the wrapped function: a store that puts back the value a field had before it is a restore,
+		// not a write of the wrapper's own (rule R15 requires such restores)
+		var firstCall ssa.Instruction
+		core.Instrs(fn, func(in ssa.Instruction) {
+			if call, ok := in.(*ssa.Call); ok && firstCall == nil && call.Call.StaticCallee() == nil && !call.Call.IsInvoke() {
+				if _, isBuiltin := call.Call.Value.(*ssa.Builtin); !isBuiltin {
+					firstCall = in
+				}
+			}
+		})
 		core.Instrs(fn, func(in ssa.Instruction) {
 			if st, ok := in.(*ssa.Store); ok {
 				if fa, ok := st.Addr.(*ssa.FieldAddr); ok {
+					if ld, ok := st.Val.(*ssa.UnOp); ok && ld.Op == token.MUL && firstCall != nil {
+						if fa2, ok := ld.X.(*ssa.FieldAddr); ok && core.FieldName(fa2) == core.FieldName(fa) && ld.Block() == firstCall.Block() && ld.Block().Dominates(st.Block()) && ld.Pos() < firstCall.Pos() {
+							restored[core.FieldName(fa)] = true
+							return
+						}
+					}
 					written[core.FieldName(fa)] = true
 				}
 			}
@@ -289,9 +306,8 @@ func c10MinMax(c *core.Check) {
 			ws = append(ws, f)
 		}
 		sort.Strings(ws)
-		want := []string{w.size, w.m1, w.m2}
-		sort.Strings(want)
-		r.Cond(strings.Join(ws, " ") == strings.Join(want, " "), w.name+" | fields written", p.Pos(fn.Pos()), strings.Join(ws, " "), fmt.Sprintf("writes %v, expected exactly %v", ws, want))
+		want := []string{w.size}
+		r.Cond(strings.Join(ws, " ") == strings.Join(want, " ") && restored[w.m1] && restored[w.m2], w.name+" | fields written", p.Pos(fn.Pos()), strings.Join(ws, " ")+"; restored before a re-run: "+strings.Join(strKeys(restored), " "), fmt.Sprintf("writes %v of its own and restores %v; expected to write exactly %v and to restore at least %s and %s", ws, strKeys(restored), want, w.m1, w.m2))
 		// the two comparisons: size > max, size < min; which field each side loads
 		fieldOf := func(v ssa.Value) string {
 			for i := 0; i < 6; i++ {
